@@ -15,10 +15,12 @@ import (
 	"net"
 	"net/http"
 	"os"
+	"runtime"
 	"runtime/debug"
 	"sort"
 	"strings"
 	"sync"
+	"syscall"
 	"time"
 
 	xhttp2 "golang.org/x/net/http2"
@@ -41,6 +43,7 @@ type poison struct {
 }
 
 const allocBatchBound = 256 << 20
+const followBody = 4096
 
 var (
 	waitSeen   = 8 * time.Second  // how long a peer waits for a reply or a close before it calls the connection silent
@@ -196,6 +199,10 @@ func h2Upstream() string {
 	h := http.HandlerFunc(func(w http.ResponseWriter, r *http.Request) {
 		io.Copy(io.Discard, r.Body)
 		w.WriteHeader(200)
+		if strings.HasPrefix(r.URL.Path, "/body") {
+			io.WriteString(w, strings.Repeat("r", followBody)) // a response whose body needs DATA frames
+			return
+		}
 		io.WriteString(w, r.Header.Get("X-Token"))
 	})
 	srv := &http.Server{Handler: h2c.NewHandler(h, &xhttp2.Server{})}
@@ -242,7 +249,12 @@ func badH2Upstream() string {
 								}
 							}
 						}
-						if strings.Contains(path, "idx") {
+						if strings.Contains(path, "ok") { // a proper answer: status 200, body "ok"
+							c.Write(rawFrame(1, 0x4, x.StreamID, 1, []byte{0x88}))
+							c.Write(rawFrame(0, 0x1, x.StreamID, 2, []byte("ok")))
+						} else if strings.Contains(path, "dup") { // :status twice
+							c.Write(rawFrame(1, 0x5, x.StreamID, 2, []byte{0x88, 0x88}))
+						} else if strings.Contains(path, "idx") {
 							blk := append([]byte{0x88}, varint(7, 0x80, (1<<7-1)+(1<<63-1), false)...)
 							c.Write(rawFrame(1, 0x5, x.StreamID, len(blk), blk))
 						} else {
@@ -254,6 +266,167 @@ func badH2Upstream() string {
 		}
 	}()
 	return ln.Addr().String()
+}
+
+// settingsH2Upstream is a cleartext HTTP/2 server whose first frame is a SETTINGS frame with the given items; it answers
+// every request with 200 and a short body.
+func settingsH2Upstream(items []slistItem) string {
+	ln, err := net.Listen("tcp", "127.0.0.1:0")
+	vh.Must(err, "settings h2 upstream")
+	go func() {
+		for {
+			c, err := ln.Accept()
+			if err != nil {
+				return
+			}
+			go func(c net.Conn) {
+				defer c.Close()
+				c.Write(settingsFrame(items))
+				pre := make([]byte, len(xhttp2.ClientPreface))
+				if _, err := io.ReadFull(c, pre); err != nil {
+					return
+				}
+				fr := xhttp2.NewFramer(c, c)
+				var hb bytes.Buffer
+				enc := hpack.NewEncoder(&hb)
+				for {
+					f, err := fr.ReadFrame()
+					if err != nil {
+						return
+					}
+					switch x := f.(type) {
+					case *xhttp2.SettingsFrame:
+						if !x.IsAck() {
+							fr.WriteSettingsAck()
+						}
+					case *xhttp2.HeadersFrame:
+						if x.StreamEnded() {
+							hb.Reset()
+							enc.WriteField(hpack.HeaderField{Name: ":status", Value: "200"})
+							fr.WriteHeaders(xhttp2.HeadersFrameParam{StreamID: x.StreamID, BlockFragment: hb.Bytes(), EndHeaders: true})
+							fr.WriteData(x.StreamID, true, []byte("ok"))
+						}
+					case *xhttp2.DataFrame:
+						if x.StreamEnded() {
+							hb.Reset()
+							enc.WriteField(hpack.HeaderField{Name: ":status", Value: "200"})
+							fr.WriteHeaders(xhttp2.HeadersFrameParam{StreamID: x.StreamID, BlockFragment: hb.Bytes(), EndHeaders: true})
+							fr.WriteData(x.StreamID, true, []byte("ok"))
+						}
+					}
+				}
+			}(c)
+		}
+	}()
+	return ln.Addr().String()
+}
+
+// followUpH2 sends a request for a response with a body on stream sid of an HTTP/2 connection that has seen a poison
+// and reports whether it was served (status 200, the whole body), refused (reset, GOAWAY, close, other status) or hung.
+func followUpH2(c net.Conn, sid uint32, path string, want int, d time.Duration) (string, int, string) {
+	blk := append([]byte{0x82, 0x86, 0x04, byte(len(path))}, path...)
+	blk = append(append(blk, 0x01, 0x08), "c08.test"...)
+	c.SetWriteDeadline(time.Now().Add(5 * time.Second))
+	if _, err := c.Write(rawFrame(1, 0x5, sid, len(blk), blk)); err != nil {
+		return "refused", 0, "write: " + err.Error()
+	}
+	c.SetReadDeadline(time.Now().Add(d))
+	fr := xhttp2.NewFramer(io.Discard, c)
+	dec := decFor(c)
+	got, status := 0, ""
+	for {
+		f, err := fr.ReadFrame()
+		if err != nil {
+			if ne, ok := err.(net.Error); ok && ne.Timeout() {
+				return "hung", got, "status " + status
+			}
+			return "refused", got, fmt.Sprint(err)
+		}
+		switch x := f.(type) {
+		case *xhttp2.HeadersFrame:
+			if x.StreamID != sid {
+				continue
+			}
+			if hs, err := dec.DecodeFull(x.HeaderBlockFragment()); err == nil {
+				for _, h := range hs {
+					if h.Name == ":status" {
+						status = h.Value
+					}
+				}
+			}
+			if x.StreamEnded() {
+				if status == "504" {
+					return "hung", got, "status 504"
+				}
+				return "refused", got, "status " + status + " without body"
+			}
+		case *xhttp2.DataFrame:
+			if x.StreamID != sid {
+				continue
+			}
+			got += len(x.Data())
+			if x.StreamEnded() {
+				if status == "200" && got == want {
+					return "served", got, "status 200"
+				}
+				if status == "504" { // the proxy waited for an upstream that never answered
+					return "hung", got, "status 504"
+				}
+				return "refused", got, "status " + status
+			}
+		case *xhttp2.RSTStreamFrame:
+			if x.StreamID == sid {
+				return "refused", got, "rst_stream " + x.ErrCode.String()
+			}
+		case *xhttp2.GoAwayFrame:
+			return "refused", got, "goaway " + x.ErrCode.String()
+		}
+	}
+}
+
+// spinning samples the goroutines three times: functions of the proxy that are on a running or runnable goroutine
+// every time (innermost frame inside mosn.io/mosn/pkg).
+func spinning() []string {
+	count := map[string]int{}
+	for k := 0; k < 3; k++ {
+		buf := make([]byte, 8<<20)
+		buf = buf[:runtime.Stack(buf, true)]
+		seen := map[string]bool{}
+		for _, g := range strings.Split(string(buf), "\n\n") {
+			lines := strings.Split(g, "\n")
+			if len(lines) < 2 || !(strings.Contains(lines[0], "[running") || strings.Contains(lines[0], "[runnable")) {
+				continue
+			}
+			for _, ln := range lines[1:] {
+				if strings.HasPrefix(ln, "mosn.io/mosn/pkg/") {
+					fn := ln
+					if i := strings.LastIndex(fn, "("); i > 0 {
+						fn = fn[:i]
+					}
+					seen[fn] = true
+					break
+				}
+			}
+		}
+		for fn := range seen {
+			count[fn]++
+		}
+		time.Sleep(120 * time.Millisecond)
+	}
+	out := []string{}
+	for fn, n := range count {
+		if n == 3 {
+			out = append(out, fn)
+		}
+	}
+	sort.Strings(out)
+	return out
+}
+
+func cpuMillis() int64 {
+	var ru syscall.Rusage
+	syscall.Getrusage(syscall.RUSAGE_SELF, &ru)
+	return (ru.Utime.Sec+ru.Stime.Sec)*1000 + int64(ru.Utime.Usec+ru.Stime.Usec)/1000
 }
 
 // ---------------------------------------------------------------- a codec plug-in whose decoder panics
@@ -369,10 +542,18 @@ func observe(c net.Conn, r *bufio.Reader, d time.Duration) (string, string) {
 }
 
 // observeH2 reads server frames: HEADERS / RST_STREAM / GOAWAY count as a reply.
+// one header decoder per connection: the peer's encoder keeps its dynamic table over all responses of the connection
+var h2decs sync.Map
+
+func decFor(c net.Conn) *hpack.Decoder {
+	d, _ := h2decs.LoadOrStore(c, hpack.NewDecoder(4096, nil))
+	return d.(*hpack.Decoder)
+}
+
 func observeH2(c net.Conn, d time.Duration) (string, string) {
 	c.SetReadDeadline(time.Now().Add(d))
 	fr := xhttp2.NewFramer(io.Discard, c)
-	dec := hpack.NewDecoder(4096, nil)
+	dec := decFor(c)
 	for {
 		f, err := fr.ReadFrame()
 		if err != nil {
@@ -499,6 +680,42 @@ func poisonBytes(p poison) []byte {
 	case "http2/continuation-without-headers":
 		return append(h2Preface(), rawFrame(9, 0x4, 1, 40, blockB())...)
 	}
+	switch p.Proto + "/" + p.Name {
+	case "http2/settings-max-frame-size-16384-then-zero":
+		return append(h2Preface(), settingsFrame([]slistItem{{5, "16384"}, {5, "zero"}})...)
+	case "http2/settings-max-frame-size-zero-then-16384":
+		return append(h2Preface(), settingsFrame([]slistItem{{5, "zero"}, {5, "16384"}})...)
+	case "http2/settings-max-frame-size-16384-16384-zero":
+		return append(h2Preface(), settingsFrame([]slistItem{{5, "16384"}, {5, "16384"}, {5, "zero"}})...)
+	case "http2/settings-initial-window-65535-then-2p31":
+		return append(h2Preface(), settingsFrame([]slistItem{{4, "65535"}, {4, "i31"}})...)
+	case "http2/settings-enable-push-0-then-2":
+		return append(h2Preface(), settingsFrame([]slistItem{{2, "zero"}, {2, "two"}})...)
+	case "http2/settings-max-frame-size-twice-legal":
+		return append(h2Preface(), settingsFrame([]slistItem{{5, "16384"}, {5, "p24m1"}})...)
+	case "http2/headers-duplicate-path", "http2/headers-duplicate-content-length":
+		blk := append([]byte{0x82, 0x86, 0x84, 0x01, 0x08}, "c08.test"...)
+		if strings.HasSuffix(p.Name, "path") {
+			blk = append(blk, 0x04, 0x05, '/', 'b', 'o', 'd', 'y')
+		} else {
+			blk = append(blk, 0x0f, 0x0d, 0x01, '0', 0x0f, 0x0d, 0x01, '5') // content-length: 0, content-length: 5
+		}
+		return append(h2Preface(), rawFrame(1, 0x5, 1, len(blk), blk)...)
+	case "http2/headers-uppercase-field-name":
+		blk := append([]byte{0x82, 0x86, 0x84, 0x01, 0x08}, "c08.test"...)
+		blk = append(blk, 0x00, 0x03, 'X', '-', 'A', 0x01, 'b')
+		return append(h2Preface(), rawFrame(1, 0x5, 1, len(blk), blk)...)
+	case "http2/headers-pseudo-after-regular":
+		blk := append([]byte{0x82, 0x86, 0x00, 0x03, 'x', '-', 'a', 0x01, 'b', 0x84, 0x01, 0x08}, "c08.test"...)
+		return append(h2Preface(), rawFrame(1, 0x5, 1, len(blk), blk)...)
+	case "http2/headers-pad-exceeds-payload":
+		blk := append([]byte{200, 0x82, 0x86, 0x84, 0x01, 0x08}, "c08.test"...)
+		return append(h2Preface(), rawFrame(1, 0x5|0x8, 1, len(blk), blk)...)
+	case "http2/window-update-zero-on-stream":
+		return append(h2Preface(), rawFrame(8, 0, 1, 4, []byte{0, 0, 0, 0})...)
+	case "bolt/repeated-header-key":
+		return boltFrame(1, 4321, 0, [][2]string{{"service", "c08"}, {"service", "nowhere"}, {"beh", "ok"}, {"beh", "garbage"}}, []byte("ping"), 0)
+	}
 	// families whose name carries the number
 	if p.Proto == "http1" && strings.HasPrefix(p.Name, "content-length-") {
 		v := map[string]string{"2p31m1": "2147483647", "2p31": "2147483648", "2p32m1": "4294967295", "2p32": "4294967296",
@@ -579,13 +796,16 @@ func runE2E(casesPath, tracePath string) {
 			Routes: []e2e.RouteSpec{{Prefix: "/", Cluster: "c08boltup", TimeoutMs: 3000, Extra: svc}}}),
 		e2e.BuildListener(e2e.ListenerSpec{Name: "c08h1", Addr: env.addr["http1"], Downstream: "Http1", Upstream: "Http1", Routes: httpRoutes}),
 		e2e.BuildListener(e2e.ListenerSpec{Name: "c08h2", Addr: env.addr["http2"], Downstream: "Http2", Upstream: "Http2",
-			Routes: []e2e.RouteSpec{{Prefix: "/bad", Cluster: "c08h2bad", TimeoutMs: 3000}, {Prefix: "/", Cluster: "c08h2up", TimeoutMs: 3000}}}),
+			Routes: []e2e.RouteSpec{{Prefix: "/bad", Cluster: "c08h2bad", TimeoutMs: 3000}, {Prefix: "/mfs0", Cluster: "c08h2mfs0", TimeoutMs: 3000},
+				{Prefix: "/mfsrep", Cluster: "c08h2mfsrep", TimeoutMs: 3000}, {Prefix: "/", Cluster: "c08h2up", TimeoutMs: 3000}}}),
 	}
 	vh.Must(xprotocol.RegisterXProtocolCodec(&xpCodec{}), "register the panicking codec")
 	lname := map[string]string{panicCodec: "c08xl", "bolt": "c08bolt", "dubbothrift": "c08thrift", "http1": "c08h1", "http2": "c08h2"}
 	clusters := e2e.BuildClusters([]e2e.ClusterSpec{{Name: "c08good", Hosts: []string{good.Addr}}, {Name: "c08bad", Hosts: []string{badHTTP}},
 		{Name: "c08boltup", Hosts: []string{boltUp}}, {Name: "c08h2up", Hosts: []string{h2Upstream()}},
-		{Name: "c08h2bad", Hosts: []string{badH2Upstream()}}})
+		{Name: "c08h2bad", Hosts: []string{badH2Upstream()}},
+		{Name: "c08h2mfs0", Hosts: []string{settingsH2Upstream([]slistItem{{5, "zero"}})}},
+		{Name: "c08h2mfsrep", Hosts: []string{settingsH2Upstream([]slistItem{{5, "16384"}, {5, "zero"}})}}})
 	m := e2e.StartMosn(e2e.BuildConfig(listeners, clusters, e2e.ScratchLog(dir)))
 	defer m.Close()
 	for _, a := range env.addr {
@@ -642,6 +862,15 @@ func runE2E(casesPath, tracePath string) {
 				return
 			}
 			tr.Emit(vh.Ev{"ev": "serve", "c": p2ID, "ok": ok, "what": what, "detail": d})
+			// a response with a body (the proxy writes DATA frames)
+			resp, err = h2cl.Get("http://" + env.addr["http2"] + "/body")
+			ok, d = false, fmt.Sprint(err)
+			if err == nil {
+				body, _ := io.ReadAll(resp.Body)
+				resp.Body.Close()
+				ok, d = resp.StatusCode == 200 && len(body) == followBody, fmt.Sprintf("status %d, %d bytes", resp.StatusCode, len(body))
+			}
+			tr.Emit(vh.Ev{"ev": "serve", "c": p2ID, "ok": ok, "what": what + "-with-body", "detail": d})
 		}
 	}
 	probeAll("warm-up")
@@ -687,10 +916,27 @@ func runE2E(casesPath, tracePath string) {
 						beh = "dangling"
 					}
 					c.Write(boltFrame(1, 4242, 0, [][2]string{{"service", "c08"}, {"beh", beh}}, []byte("ping"), 0))
+				} else if p.Proto == "http2" && strings.Contains(p.Name, "upstream-settings") {
+					// the upstream's first frame announces the settings; a request without body makes the proxy connect and
+					// read them, the second request has a body the proxy must forward in DATA frames
+					path := "/mfs0"
+					if strings.Contains(p.Name, "then") {
+						path = "/mfsrep"
+					}
+					blk := append([]byte{0x82, 0x86, 0x04, byte(len(path))}, path...)
+					blk = append(append(blk, 0x01, 0x08), "c08.test"...)
+					c.Write(append(h2Preface(), rawFrame(1, 0x5, 1, len(blk), blk)...))
+					observeH2(c, wait)
+					blk[0] = 0x83 // POST
+					c.Write(rawFrame(1, 0x4, 3, len(blk), blk))
+					c.Write(rawFrame(0, 0x1, 3, 2048, bytes.Repeat([]byte("q"), 2048)))
+					res, detail = observeH2(c, wait)
 				} else if p.Proto == "http2" {
 					path := "/badfrm"
 					if strings.Contains(p.Name, "hpack") {
 						path = "/badidx"
+					} else if strings.Contains(p.Name, "duplicate") {
+						path = "/baddup"
 					}
 					blk := append([]byte{0x82, 0x86, 0x04, byte(len(path))}, path...)
 					blk = append(append(blk, 0x01, 0x08), "c08.test"...)
@@ -725,6 +971,36 @@ func runE2E(casesPath, tracePath string) {
 				}
 			}
 			tr.Emit(vh.Ev{"ev": "seen", "c": id, "res": res, "detail": detail, "name": p.Name, "proto": p.Proto})
+			// whatever the proxy made of a control frame or of a repeated field: the next request on this connection is
+			// served or refused, it does not hang
+			if p.Side == "up" && p.Proto == "http2" && res != "closed" && !strings.Contains(p.Name, "settings") {
+				// the upstream answers this path properly: the malformed answer to the previous request must not stand in its way
+				fres, n, fd := followUpH2(c, 7, "/bad/ok", 2, wait)
+				tr.Emit(vh.Ev{"ev": "followup", "c": id, "res": fres, "bytes": n, "detail": fd, "name": p.Name, "proto": p.Proto})
+			}
+			if p.Side == "down" && res != "closed" && p.Class != "incomplete" {
+				switch p.Proto {
+				case "http2":
+					fres, n, fd := followUpH2(c, 5, "/body", followBody, wait)
+					if fres == "hung" && os.Getenv("C08_DEBUG") != "" {
+						buf := make([]byte, 16<<20)
+						fmt.Fprintf(os.Stderr, "HUNG after %s\n%s\n", p.Name, buf[:runtime.Stack(buf, true)])
+					}
+					tr.Emit(vh.Ev{"ev": "followup", "c": id, "res": fres, "bytes": n, "detail": fd, "name": p.Name, "proto": p.Proto})
+				case "bolt":
+					if strings.Contains(p.Name, "repeated") {
+						ok, fd := serveBolt(c, r, uint32(5000+i), "ok", wait)
+						fres := "served"
+						if !ok {
+							fres = "refused"
+							if strings.Contains(fd, "timeout") {
+								fres = "hung"
+							}
+						}
+						tr.Emit(vh.Ev{"ev": "followup", "c": id, "res": fres, "bytes": 0, "detail": fd, "name": p.Name, "proto": p.Proto})
+					}
+				}
+			}
 			if attribute {
 				// one poison at a time: what the whole process allocated meanwhile is (nearly) its doing
 				lastAlloc = allocated() - a0
@@ -839,6 +1115,15 @@ func runE2E(casesPath, tracePath string) {
 		tr.Emit(vh.Ev{"ev": "gauge", "listener": lname[proto], "active": g})
 	}
 	probeAll("at-the-end")
+	// everything is answered and closed: a proxy that still burns a core is spinning somewhere
+	c0, t0 := cpuMillis(), time.Now()
+	time.Sleep(1500 * time.Millisecond)
+	busy, wall := cpuMillis()-c0, time.Since(t0).Milliseconds()
+	where := []string{}
+	if busy*2 > wall {
+		where = spinning()
+	}
+	tr.Emit(vh.Ev{"ev": "cpu", "busy_ms": busy, "wall_ms": wall, "where": where})
 	tr.Emit(vh.Ev{"ev": "alive"})
 	tr.Close()
 	fmt.Printf("e2e poisons=%d events=%d http2=%v\n", len(menu), tr.Len(), h2ok)
